@@ -311,6 +311,9 @@ func c14RunLive(c c14LiveCase) (err error, stats map[string]int) {
 		grants    []c14Grant
 		offers    []*pending
 		violation string
+		curOp     int
+		history   []string
+		probationSince = map[*sliceMachine]int{}
 	)
 	fail := func(format string, args ...interface{}) {
 		if violation == "" {
@@ -340,21 +343,23 @@ func c14RunLive(c c14LiveCase) (err error, stats map[string]int) {
 				fail("a request for the whole machine (%d procs) was placed on %s, which already runs %d procs", p.procs, m.Addr, ledger[m]-p.procs)
 			}
 			if probation[m] {
-				fail("machine %s is on probation and received new work", m.Addr)
+				fail("op %d: machine %s is on probation (since op %d) and received new work (history: %v)", curOp, m.Addr, probationSince[m], history)
 			}
 			if at, ok := stopped[m]; ok && time.Since(at) > time.Second {
 				fail("machine %s stopped %v ago and received new work", m.Addr, time.Since(at))
 			}
 			grants = append(grants, c14Grant{m, p.procs})
+			history = append(history, fmt.Sprintf("op%d:grant %d on %s", curOp, p.procs, m.Addr[len(m.Addr)-5:]))
 			return true
 		case <-time.After(wait):
 			return false
 		}
 	}
-	for _, op := range c.Ops {
+	for oi, op := range c.Ops {
 		if violation != "" {
 			break
 		}
+		curOp = oi
 		switch op.K {
 		case "offer":
 			procs := 1 + op.B%capacity
@@ -416,15 +421,19 @@ func c14RunLive(c c14LiveCase) (err error, stats map[string]int) {
 				derr = errors.E(errors.Net, "connection reset")
 			}
 			g.m.Done(g.procs, derr)
+			history = append(history, fmt.Sprintf("op%d:%s %d on %s", oi, op.K, g.procs, g.m.Addr[len(g.m.Addr)-5:]))
 			roundTrip()
 			mu.Lock()
-			if _, dead := stopped[g.m]; !dead {
-				switch {
-				case derr != nil && !errors.Is(errors.Remote, derr):
-					probation[g.m] = true
-				case derr == nil:
-					delete(probation, g.m)
-				}
+			_, dead := stopped[g.m]
+			switch {
+			case derr != nil && !errors.Is(errors.Remote, derr) && !dead:
+				probation[g.m] = true
+				probationSince[g.m] = oi
+			case derr == nil:
+				// a successful completion ends the probation - also of a machine that was killed a moment
+				// ago and whose stop the manager has not noticed yet (that case is judged by the
+				// "stopped for more than 1 s" rule)
+				delete(probation, g.m)
 			}
 			mu.Unlock()
 			stats[op.K]++
